@@ -14,6 +14,8 @@ import (
 	"sync"
 	"time"
 
+	"github.com/tsuna/gohbase/compression"
+	gsnappy "github.com/tsuna/gohbase/compression/snappy"
 	"github.com/tsuna/gohbase/hrpc"
 	"github.com/tsuna/gohbase/pb"
 	"github.com/tsuna/gohbase/region"
@@ -27,7 +29,13 @@ func c05Stress(rng *RNG, round int) string {
 	q := []int{1, 2, 5, 100}[rng.Intn(4)]
 	v := newVConn()
 	dialer := func(ctx context.Context, network, addr string) (net.Conn, error) { return v, nil }
-	rc := region.NewClient("vconn:0", region.RegionClient, q, 0, "verif", time.Hour, nil, dialer, discardLogger)
+	// every other round with cellblock compression (the compressor is shared by all senders of the
+	// connection)
+	var codec compression.Codec
+	if round%2 == 1 {
+		codec = gsnappy.New()
+	}
+	rc := region.NewClient("vconn:0", region.RegionClient, q, 0, "verif", time.Hour, codec, dialer, discardLogger)
 	if err := rc.Dial(context.Background()); err != nil {
 		return "c05 stress BAD dial"
 	}
@@ -76,7 +84,7 @@ func c05Stress(rng *RNG, round int) string {
 	for {
 		seenRows = map[string]int{}
 		ids = map[uint32]int{}
-		verdict = c05StressParse(v, want, seenRows, ids)
+		verdict = c05StressParse(v, codec, want, seenRows, ids)
 		if verdict != "ok" || len(seenRows) >= total || time.Now().After(deadline) {
 			break
 		}
@@ -102,7 +110,28 @@ func c05Stress(rng *RNG, round int) string {
 		g, total, q, verdict, dup, missing, twice)
 }
 
-func c05StressParse(v *VConn, want map[string]string, seenRows map[string]int, ids map[uint32]int) string {
+// cellRows returns the row of every KeyValue of an (uncompressed) cellblock, nil if it does not parse.
+func cellRows(cb []byte) [][]byte {
+	var rows [][]byte
+	for len(cb) > 0 {
+		if len(cb) < 4 || len(cb) < 4+int(binary.BigEndian.Uint32(cb)) {
+			return nil
+		}
+		kv := cb[4 : 4+int(binary.BigEndian.Uint32(cb))]
+		if len(kv) < 10 {
+			return nil
+		}
+		rl := int(binary.BigEndian.Uint16(kv[8:]))
+		if len(kv) < 10+rl {
+			return nil
+		}
+		rows = append(rows, kv[10:10+rl])
+		cb = cb[4+len(kv):]
+	}
+	return rows
+}
+
+func c05StressParse(v *VConn, codec compression.Codec, want map[string]string, seenRows map[string]int, ids map[uint32]int) string {
 	v.mu.Lock()
 	var b []byte
 	for _, u := range v.written {
@@ -139,6 +168,21 @@ func c05StressParse(v *VConn, want map[string]string, seenRows map[string]int, i
 		if uint32(len(body[k+k2:])) != h.GetCellBlockMeta().GetLength() {
 			return fmt.Sprintf("broken-cellblock-length-frame%d", n)
 		}
+		// the cellblock of a frame carries the cells of the rows its request names, nothing else
+		var cbRows [][]byte
+		if cb := body[k+k2:]; len(cb) > 0 {
+			if codec != nil {
+				d, err := region.VerifDecompress(codec, cb)
+				if err != nil {
+					return fmt.Sprintf("cellblock-does-not-decompress-frame%d", n)
+				}
+				cb = d
+			}
+			if cbRows = cellRows(cb); cbRows == nil {
+				return fmt.Sprintf("broken-cellblock-cells-frame%d", n)
+			}
+		}
+		var reqRows [][]byte
 		ids[h.GetCallId()]++
 		note := func(row []byte, method string) string {
 			if w, ok := want[string(row)]; !ok || (w != method && method != "Multi") {
@@ -164,6 +208,9 @@ func c05StressParse(v *VConn, want map[string]string, seenRows map[string]int, i
 			if e := note(r.GetMutation().GetRow(), "Mutate"); e != "" {
 				return e
 			}
+			if r.GetMutation().GetAssociatedCellCount() > 0 {
+				reqRows = append(reqRows, r.GetMutation().GetRow())
+			}
 		case "Multi":
 			var r pb.MultiRequest
 			if proto.Unmarshal(rb, &r) != nil {
@@ -178,10 +225,21 @@ func c05StressParse(v *VConn, want map[string]string, seenRows map[string]int, i
 					if e := note(row, "Multi"); e != "" {
 						return e
 					}
+					for i := int32(0); i < a.GetMutation().GetAssociatedCellCount(); i++ {
+						reqRows = append(reqRows, row)
+					}
 				}
 			}
 		default:
 			return fmt.Sprintf("unknown-method-frame%d", n)
+		}
+		if len(cbRows) != len(reqRows) {
+			return fmt.Sprintf("cellblock-cell-count-frame%d", n)
+		}
+		for i := range cbRows {
+			if string(cbRows[i]) != string(reqRows[i]) {
+				return fmt.Sprintf("cellblock-of-another-request-frame%d", n)
+			}
 		}
 		b = b[4+total:]
 		n++
